@@ -383,6 +383,14 @@ def splice_fn(a, item, uc, group_props, canary=False, drop_hints=()):
             else:
                 raise Undecided("no loop contract for %s in %s" % (key, uid))
             out.append(("{", None, None, None))
+            # hints at the start of the loop body: event `body <loop key>` (iterator-generated loops have no other anchor there)
+            ev = "body " + key
+            if uc and ev in uc.at and not any(re.match(r'^\s*vx_at!\("%s"\);' % re.escape(ev), x) for x in blines):
+                used_at.add(ev)
+                for hk, (props, t) in enumerate(uc.at[ev]):
+                    lab = "%s/%d" % (ev, hk + 1)
+                    if (uid, lab) not in drop_hints:
+                        out.append((t, "at", lab, props or unit_safety))
             i += 1
             continue
         if "vx_at!" in ln or "vx_loop!" in ln or "vx_contract!" in ln:
